@@ -676,7 +676,7 @@ def pretty_print_cell(i, cell, prefix="", force_header=False, config=DefaultConf
             "collapsed", "autoscroll", "deletable", "format", "name", "tags",
         }
         pretty_print_metadata(
-            cell.metadata,
+            metadata,
             known_cell_metadata_keys,
             key_prefix,
             config)
@@ -909,8 +909,11 @@ def pretty_print_merge_decision(base, decision, config=DefaultConfig):
     config.out.write("%s%sdecision at %s:%s\n" % (
         config.INFO.replace("##", "===="), confnote, path, config.RESET))
 
-    diff_keys = ("diff", "local_diff", "remote_diff", "custom_diff", "similar_insert")
-    exclude_keys = set(diff_keys) | {"common_path", "action", "conflict"}
+    # Note: similar_insert is a diff between the two inserted value lists,
+    # not a diff on base, so it cannot be rendered against base here
+    diff_keys = ("diff", "local_diff", "remote_diff", "custom_diff")
+    exclude_keys = set(diff_keys) | {
+        "common_path", "action", "conflict", "similar_insert"}
     pretty_print_dict(decision, exclude_keys, prefix, config)
 
     for dkey in diff_keys:
